@@ -18,7 +18,7 @@ META = {
         "query, is_subclass, Av.clear_cache, creation of unrelated classes, re-creation of the same class via "
         "Av(list) / Av(Basis) / from_iterable / from_string) on classical and mesh bases, interpreted against "
         "the brute-force model ref.av; driven by an op-list strategy and by a Hypothesis RuleBasedStateMachine; "
-        "plus exhaustive small bases x all orders of three requested lengths. Non-trivial: the history has a "
+        "plus exhaustive small bases (every set of <= 3 patterns of length <= 3; thorough <= 4 patterns, and pairs of length <= 4) x all orders of three requested lengths. Non-trivial: the history has a "
         "non-monotone request (a shorter level after a longer one, or a first query >= 2 levels above the "
         "cache), an iterator alive across a deeper request, or a clear_cache between two uses of one basis. "
         "Distinct = distinct (basis, op list)."
@@ -190,6 +190,8 @@ class Interp:
         except engine.HarnessError:
             raise
         except Exception as exc:  # the library raised: never allowed on these inputs
+            if not engine.is_lib_exception(exc):
+                raise  # a malformed case (e.g. a shrinking candidate): harness side, not a violation
             return BAD("exception_" + name, {"op": op, "exc": f"{type(exc).__name__}: {exc}"})
 
     def op_count(self, inst, n):
@@ -394,6 +396,8 @@ class Interp:
                     if len(rec[3]) > 200000:
                         return BAD("iterator_unbounded", {"kind": rec[1]})
             except Exception as exc:
+                if not engine.is_lib_exception(exc):
+                    raise
                 return BAD("exception_drain", {"kind": rec[1], "exc": f"{type(exc).__name__}: {exc}"})
             rec[4] = True
             out = self._check_iter(rec)
@@ -441,8 +445,8 @@ CHECKS = {"history": check_history, "orders": check_orders}
 def classical_basis():
     @st.composite
     def build(draw):
-        k = draw(st.integers(1, 4))
-        basis = [list(draw(gen.perms(1, 5))) for _ in range(k)]
+        k = draw(st.sampled_from([1, 2, 2, 3, 3, 4, 5, 6]))
+        basis = [list(draw(gen.perms(1, 5) if draw(st.integers(0, 2)) else gen.perms(3, 4))) for _ in range(k)]
         if draw(st.integers(0, 4)) == 0:
             basis.append(list(basis[0]))  # duplicate
         if draw(st.integers(0, 5)) == 0:
@@ -625,9 +629,9 @@ def shard_orders(acc, shard, nshards, max_len, max_size, top):
 
 def run(acc, tier):
     if tier == "quick":
-        engine.pmap(acc, shard_orders, extra=(3, 2, 6))
-        engine.pmap(acc, shard_histories, extra=(40, 12))
+        engine.pmap(acc, shard_orders, extra=(3, 3, 6))
+        engine.pmap(acc, shard_histories, extra=(60, 15))
     else:
-        engine.pmap(acc, shard_orders, extra=(3, 2, 7))
-        engine.pmap(acc, shard_orders, extra=(4, 1, 7))
+        engine.pmap(acc, shard_orders, extra=(3, 4, 7))
+        engine.pmap(acc, shard_orders, extra=(4, 2, 7))
         engine.pmap(acc, shard_histories, extra=(500, 150))
